@@ -5,6 +5,7 @@
    is covered by the lexer models (C14). *)
 From Coq Require Import ZArith Bool.
 From PV Require Import Base.Common Base.IR Base.Bits Model.Literal Proofs.LiteralProofs.
+From PV Require Model.LintWalk Proofs.LintWalkProofs.
 Open Scope Z_scope.
 
 (* Every integer literal (optional minus, magnitude < 2^128, any token kind),
@@ -54,6 +55,62 @@ Theorem C09_pinned_usize_mask_refuted :
   repr 64 (repr 64 (masked (Some 4294967295) 4294967296)) <> repr 64 4294967296.
 Proof. exact materialise_bit_masked_refuted. Qed.
 
+(* "... a value outside the range of its type ALWAYS raises L1142": the range test above is
+   applied to every literal.  Model/LintWalk.v follows linter.rs arm by arm over the common
+   AST; the specification [occs_decl] is the plain structural list of the integer literals of
+   a declaration, in source order (constant values, initialisers, assigned values, both sides
+   of conditions, call and builtin arguments, array elements, structure-literal members,
+   operands, under unary operators / parentheses / casts, indices - also on the left of an
+   assignment -, return values).  The linter looks at each of them exactly once, in that
+   order, with its own value and type. *)
+Theorem C09_linter_reaches_every_literal :
+  forall d, LintWalk.lint_visits d = LintWalk.occs_decl d.
+Proof. exact LintWalkProofs.lint_visits_are_occurrences. Qed.
+
+(* Whatever the range test [oor] is: every typed literal that fails it is reported, and
+   nothing else is. *)
+Theorem C09_out_of_range_literal_always_linted : forall oor d o t,
+  In o (LintWalk.occs_decl d) -> LintWalk.oc_ty o = Some t ->
+  oor (LintWalk.oc_signed o) (LintWalk.oc_val o) t = true ->
+  In (LintWalk.oc_pos o) (LintWalk.l1142 oor d).
+Proof. exact LintWalkProofs.l1142_always. Qed.
+
+Theorem C09_lint_only_for_out_of_range_literals : forall oor d p,
+  In p (LintWalk.l1142 oor d) ->
+  exists o t, In o (LintWalk.occs_decl d) /\ LintWalk.oc_pos o = p /\ LintWalk.oc_ty o = Some t /\
+              oor (LintWalk.oc_signed o) (LintWalk.oc_val o) t = true.
+Proof. exact LintWalkProofs.l1142_never. Qed.
+
+(* One linter is shared by the declarations of a module; its state is back to the default after
+   every declaration, so no declaration influences the lints of the next. *)
+Theorem C09_lints_are_per_declaration :
+  forall ds, LintWalk.lint_module ds = flat_map LintWalk.lint_decl ds.
+Proof. exact LintWalkProofs.lint_module_is_per_declaration. Qed.
+
+(* The pinned commit's traversal skipped return values and if-conditions (D42, repaired); a
+   traversal that does not enter parentheses (a seeded change) misses `(300)`. *)
+Theorem C09_pinned_linter_skips_return_value_refuted :
+  exists d, LintWalk.literals_of_decl d <> [] /\ LintWalk.events_of (LintWalk.lint_decl_pinned d) = []
+            /\ LintWalk.lint_positions d = [1%N].
+Proof. exact LintWalkProofs.pinned_traversal_refuted_return. Qed.
+
+Theorem C09_pinned_linter_skips_condition_refuted :
+  exists d, LintWalk.literals_of_decl d <> [] /\ LintWalk.events_of (LintWalk.lint_decl_pinned d) = []
+            /\ LintWalk.lint_positions d = [1%N].
+Proof. exact LintWalkProofs.pinned_traversal_refuted_condition. Qed.
+
+Theorem C09_linter_without_parentheses_refuted :
+  exists d, LintWalk.literals_of_decl d <> [] /\ LintWalk.events_of (LintWalk.lint_decl_noparen d) = []
+            /\ LintWalk.lint_positions d = [1%N].
+Proof. exact LintWalkProofs.noparen_traversal_refuted. Qed.
+
 Print Assumptions C09_bits_of_correct.
 Print Assumptions C09_lint_characterisation.
 Print Assumptions C09_no_lint_in_range.
+Print Assumptions C09_linter_reaches_every_literal.
+Print Assumptions C09_out_of_range_literal_always_linted.
+Print Assumptions C09_lint_only_for_out_of_range_literals.
+Print Assumptions C09_lints_are_per_declaration.
+Print Assumptions C09_pinned_linter_skips_return_value_refuted.
+Print Assumptions C09_pinned_linter_skips_condition_refuted.
+Print Assumptions C09_linter_without_parentheses_refuted.
